@@ -12,14 +12,14 @@ TECHNIQUE = 'runtime monitoring: configuration matrix driven under a determinist
 RULE = ('the matrix {subscriber states spied / not} x {subscriber constructed instrumented / not} x {named / unnamed} x {subscribe before '
         'start_at / after it from outside / from inside one of its handlers} x {fifo, lifo} x {0, 1, 2 other active objects already '
         'subscribed to the same signal} x {publisher states spied / not} x {publish before the publisher\'s start_at / after it from outside '
-        '/ from inside a handler}; in the subscribe-inside cells two further objects subscribe from inside their own handlers at the same time, each on its own thread; in a fifth of the cells the running fabric is cleared (clear() without stop()) before the subscriber under test subscribes; every cell is driven under detsched (random / PCT schedules, quiescence between phases); each unique-id '
+        '/ from inside a handler}; in the subscribe-inside cells two further objects subscribe from inside their own handlers at the same time, each on its own thread; in half of the spied subscribe-after / publish-after cells live spy output is on and the object is busy finishing a step while subscribe() / publish() is called from outside; in a fifth of the cells the running fabric is cleared (clear() without stop()) before the subscriber under test subscribes; every cell is driven under detsched (random / PCT schedules, quiescence between phases); each unique-id '
         'publication made after the subscription must be dispatched exactly once by the subscriber and by every earlier subscriber. '
         'distinct_nontrivial = distinct matrix cells run (x schedule in the thorough tier)')
 CELLS = list(itertools.product((True, False), (True, False), (True, False), ('before', 'after', 'inside'), ('fifo', 'lifo'), (0, 1, 2),
                                (True, False), ('before', 'after', 'inside')))
 CASES = {'quick': len(CELLS), 'thorough': len(CELLS) * 60}
 BUDGET = {'quick': 150, 'thorough': 300}
-REQUIRE = {'cells_run': 600, 'publications_checked': 1500, 'concurrent_subscribes': 150, 'cells_with_fabric_cleared_while_running': 60}
+REQUIRE = {'cells_run': 600, 'publications_checked': 1500, 'concurrent_subscribes': 150, 'cells_with_fabric_cleared_while_running': 60, 'outside_call_on_busy_object_with_live_spy': 80}
 ASSUME = ['decoration is all-or-none per chart; each phase is followed by quiescence so "later publications" is unambiguous']
 ANNOUNCE_CASES = True
 
@@ -62,7 +62,7 @@ def run_case(ctx, n):
         a.start_at(make_state(h, 'c07_other_%d' % i, True, 'fifo'))
         earlier.append((a, h))
       s.quiesce()
-      # in a fifth of the cells the running fabric is cleared (ActiveFabric().clear(), no stop) before the subscriber under test
+      # in half of the spied subscribe-after / publish-after cells live spy output is on and the object is busy finishing a step while subscribe() / publish() is called from outside; in a fifth of the cells the running fabric is cleared (ActiveFabric().clear(), no stop) before the subscriber under test
       # arrives: the earlier subscribers lose their subscriptions (not judged here), later subscriptions must work as ever
       cleared = rng.random() < 0.2
       if cleared:
@@ -79,8 +79,17 @@ def run_case(ctx, n):
         sub.subscribe(Event(signal='C07_PUB'), queue_type=kind)
         sub.start_at(st)
       elif s_when == 'after':
+        busy = s_spied and s_instr and rng.random() < 0.5
+        if busy:
+          # live spy output on, and the object is busy finishing a step (handing its spy lines to the live callback) while
+          # subscribe() is called from outside
+          sub.live_spy = True
+          sub.register_live_spy_callback(lambda line: None)
+          ctx.count('outside_call_on_busy_object_with_live_spy')
         sub.start_at(st)
         s.quiesce()
+        if busy:
+          sub.post_fifo(Event(signal='C07_NOISE'))
         sub.subscribe(Event(signal='C07_PUB'), queue_type=kind)
       else:
         # two more objects subscribe from inside their own handlers at the same time (each in its own thread)
@@ -107,9 +116,16 @@ def run_case(ctx, n):
           pub.publish(Event(signal='C07_PUB', payload=u))
         pub.start_at(pst)
       elif p_when == 'after':
+        pbusy = p_spied and rng.random() < 0.5
+        if pbusy:
+          pub.live_spy = True
+          pub.register_live_spy_callback(lambda line: None)
+          ctx.count('outside_call_on_busy_object_with_live_spy')
         pub.start_at(pst)
         s.quiesce()
         for u in uids:
+          if pbusy:
+            pub.post_fifo(Event(signal='C07_NOISE'))
           pub.publish(Event(signal='C07_PUB', payload=u))
       else:
         pub.start_at(pst)
